@@ -196,7 +196,10 @@ def r_ind_def(ctx):
                 continue
             n += 1
             var = ind_var(run)
-            own = [e for e in run.emissions if e.owner == SELF]
+            # (the documented bound constraints `variable >= / <= bounds[k]` of Indicator.__init__ are R-BOUND-ASSERTED's matter)
+            own = [e for e in run.emissions if e.owner == SELF and not (
+                not e.loops and any(canon(e.term) == canon(w_) for w_ in (ge(var, ("idx", A(SELF, "bounds"), K(0))),
+                                                                           le(var, ("idx", A(SELF, "bounds"), K(1))))))]
             location = loc(own[0]) if own else first_line(ctx.project, cname)
             arg = arg_fn(run)
             want_list = ("list", (arg,)) if arg[0] == "each" else arg
@@ -725,6 +728,12 @@ def r_own_exact(ctx, bases=("Indicator", "Objective", "Resource")):
                                 bad.setdefault(("second defining equation", show(norm(t))[:160]), (describe_config(run), loc(e)))
                             continue
                     if e.loops and t == ("elem", e.loops[-1]) and not e.guards and helper_list(e.loops[-1][3]):
+                        continue
+                    # bounds the caller gives are constraints by the documentation (docs/indicator.md): variable >= / <= bounds[k]
+                    var_ = run.heap.get((e.owner, "_indicator_variable"))
+                    if not e.loops and isinstance(var_, tuple) and any(
+                            canon(t) == canon(w_) for w_ in (ge(var_, ("idx", A(e.owner, "bounds"), K(0))),
+                                                              le(var_, ("idx", A(e.owner, "bounds"), K(1))))):
                         continue
                     bad.setdefault(("assertion beyond the definition", show(norm(t))[:160]), (describe_config(run), loc(e)))
             for (kind, what), (cfgs, location) in sorted(bad.items()):
